@@ -37,6 +37,9 @@ type Offering struct {
 	Available     bool   `json:"available"`
 	ReservationID string `json:"reservationID"`
 	ReservationN  int    `json:"reservationCapacity"`
+	// CPUOverride, when set, is this offering's CapacityOverride for cpu (milli-cores): launches through this offering have
+	// another allocatable than the instance type's base capacity
+	CPUOverride *int64 `json:"cpuOverride"`
 }
 
 type IT struct {
@@ -139,4 +142,7 @@ type Scenario struct {
 	Parallelism      int         `json:"parallelism"` // scheduler.NumConcurrentReconciles
 	ReservedCapacity bool        `json:"reservedCapacity"`
 	MaxInstanceTypes int         `json:"maxInstanceTypes"` // 0 = leave scheduling.MaxInstanceTypes alone
+	// PodEventsFirst delivers the event of every bound pod to the cluster state BEFORE its node is tracked (the update fails
+	// with NotFound, as it does when informers race) and does not redeliver it before the pass
+	PodEventsFirst bool `json:"podEventsFirst"`
 }
